@@ -359,6 +359,9 @@ def voigt_translation():
 
 
 def translations():
+    import os as _os
+    import srcguard as _srcguard
+    _srcguard.guard_from_baseline("specs_tensors_glue", _os.environ.get("PYDREX_REPO", "/repo"))   # fail closed on new block-size-like integers
     import pydrex.tensors as tensors
     vt, vsrc = voigt_translation()
     return [("Gen_polar", polar_translation(tensors), tensors.__file__), ("Gen_voigt", vt, vsrc)]
